@@ -1175,6 +1175,47 @@ func allIDs(d *tgen.TypeDesc, ids map[int16]bool, seen map[string]bool) {
 	allIDs(d.Key, ids, seen)
 }
 
+// genBoolContainer draws a container of bools: list<bool>, set<bool>,
+// map<bool,X>, map<X,bool>, alone or nested in a list, a map value or a struct.
+func genBoolContainer(t *rapid.T) thriftspec.Value {
+	b := func() thriftspec.Value { return thriftspec.Value{T: thriftspec.Bool, B: rapid.Bool().Draw(t, "bv")} }
+	n := rapid.IntRange(0, 3).Draw(t, "bn")
+	var v thriftspec.Value
+	switch rapid.IntRange(0, 3).Draw(t, "bshape") {
+	case 0:
+		v = thriftspec.Value{T: thriftspec.List, ET: thriftspec.Bool}
+		for i := 0; i < n; i++ {
+			v.Elems = append(v.Elems, b())
+		}
+	case 1:
+		v = thriftspec.Value{T: thriftspec.Set, ET: thriftspec.Bool}
+		for i := 0; i < n && i < 2; i++ {
+			v.Elems = append(v.Elems, thriftspec.Value{T: thriftspec.Bool, B: i == 0})
+		}
+	case 2:
+		v = thriftspec.Value{T: thriftspec.Map, KT: thriftspec.Bool, ET: thriftspec.I32}
+		for i := 0; i < n && i < 2; i++ {
+			v.Keys = append(v.Keys, thriftspec.Value{T: thriftspec.Bool, B: i == 0})
+			v.Elems = append(v.Elems, thriftspec.Value{T: thriftspec.I32, I: int64(7 + i)})
+		}
+	default:
+		v = thriftspec.Value{T: thriftspec.Map, KT: thriftspec.String, ET: thriftspec.Bool}
+		for i := 0; i < n; i++ {
+			v.Keys = append(v.Keys, thriftspec.Value{T: thriftspec.String, S: []byte{byte('a' + i)}})
+			v.Elems = append(v.Elems, b())
+		}
+	}
+	switch rapid.IntRange(0, 4).Draw(t, "bnest") {
+	case 1:
+		return thriftspec.Value{T: thriftspec.List, ET: v.T, Elems: []thriftspec.Value{v}}
+	case 2:
+		return thriftspec.Value{T: thriftspec.Map, KT: thriftspec.I16, ET: v.T, Keys: []thriftspec.Value{{T: thriftspec.I16, I: 3}}, Elems: []thriftspec.Value{v}}
+	case 3:
+		return thriftspec.Value{T: thriftspec.Struct, Fields: []thriftspec.Field{{ID: 1, V: thriftspec.Value{T: thriftspec.I32, I: 1}}, {ID: 2, V: v}}}
+	}
+	return v
+}
+
 func genCase(t *rapid.T, o *tgen.Opts) Case {
 	c := Case{P: rapid.SampledFrom([]int{0, 0, 1, 2, 2, 2}).Draw(t, "p"), RK: rapid.IntRange(0, len(readerKinds)-1).Draw(t, "rk")}
 	if rapid.IntRange(0, 9).Draw(t, "kind") == 0 {
@@ -1242,9 +1283,17 @@ func genCase(t *rapid.T, o *tgen.Opts) Case {
 		if ids[id] {
 			continue
 		}
-		budget := rapid.SampledFrom([]int{1, 4, 12, 30}).Draw(t, "ubudget")
-		ty := tgen.GenTreeType(t, 3)
-		c.Unknown = append(c.Unknown, thriftspec.Field{ID: id, V: tgen.GenTree(t, ty, 3, &budget)})
+		var uv thriftspec.Value
+		if rapid.IntRange(0, 3).Draw(t, "ubool") == 1 {
+			uv = genBoolContainer(t) // a bool collection as list / set / map key / map value, plain or nested
+		} else {
+			budget := rapid.SampledFrom([]int{1, 4, 12, 30}).Draw(t, "ubudget")
+			uv = tgen.GenTree(t, tgen.GenTreeType(t, 3), 3, &budget)
+		}
+		// BOOL element / key / value types announced as 1 instead of 2 (compact protocol:
+		// both are conformant and both must be skipped)
+		uv = thriftspec.WithBool1(uv, rapid.Bool().Draw(t, "bool1lists"), rapid.Bool().Draw(t, "bool1maps"))
+		c.Unknown = append(c.Unknown, thriftspec.Field{ID: id, V: uv})
 	}
 	nr := rapid.IntRange(0, 3).Draw(t, "nrand")
 	for i := 0; i < nr; i++ {
@@ -1313,6 +1362,14 @@ func caseLabels(c Case) {
 				evid.Label("unknown.id=0")
 			case u.ID < 0:
 				evid.Label("unknown.id<0")
+			}
+			if c.P%3 == 2 {
+				if thriftspec.HasBool1(u.V, true, false) {
+					evid.Label("unknown.list/set-of-bool-announced-as-1(compact)")
+				}
+				if thriftspec.HasBool1(u.V, false, true) {
+					evid.Label("unknown.map-with-bool-key/value-announced-as-1(compact)")
+				}
 			}
 			var st thriftspec.Stats
 			st.Add(u.V, 0)
